@@ -40,8 +40,12 @@ func lin32k(bl, bh uint32, base uint32) region { // upper half of banks: 32 KiB 
 func lin64k(bl, bh uint32, base uint32) region { // whole banks packed linearly
 	return region{bl, bh, 0x0000, 0xFFFF, "ROM", base, 0, 0x3F, 16, 0xFFFF}
 }
-func wramLow(bl, bh uint32) region { return region{bl, bh, 0x0000, 0x1FFF, "WRAM", wramBase, 0, 0, 0, 0x1FFF} }
-func wramFull() region            { return region{0x7E, 0x7F, 0x0000, 0xFFFF, "WRAM", wramBase, 0x7E, 1, 16, 0xFFFF} }
+func wramLow(bl, bh uint32) region {
+	return region{bl, bh, 0x0000, 0x1FFF, "WRAM", wramBase, 0, 0, 0, 0x1FFF}
+}
+func wramFull() region {
+	return region{0x7E, 0x7F, 0x0000, 0xFFFF, "WRAM", wramBase, 0x7E, 1, 16, 0xFFFF}
+}
 
 var regionTables = map[string][]region{
 	"lorom": {
